@@ -16,7 +16,7 @@ func VH_C16_Flush() {
 	hdr, body := ini.nextHeaderSend, ini.nextBodySend
 	vAssert(len(hdr) == 18 && len(body) == l+16, "record is not an 18-byte header plus len+16 body")
 	splits := vParam("splits", 3)
-	w := &vPartialWriter{log: make([]byte, 0, vParam("logcap", 70000)), partial: splits}
+	w := &vPartialWriter{log: make([]byte, 0, vParam("logcap", 140000)), partial: splits, errOnFull: true}
 	total := 0
 	done := false
 	for i := 0; i < splits+2 && !done; i++ {
@@ -27,9 +27,15 @@ func VH_C16_Flush() {
 			done = true
 		} else {
 			vAssert(err == vErrTimeout, "Flush returned a foreign error")
+			// (a writer may report the timeout together with the last
+			// bytes: then nothing is pending and the record is out)
 			pending := len(ini.nextHeaderSend) > 0 || len(ini.nextBodySend) > 0
-			vAssert(pending, "Flush failed but nothing is pending")
-			vAssert(ini.WriteMessage(p) == ErrMessageNotFlushed, "a new record could be started while one is pending")
+			if pending {
+				vAssert(ini.WriteMessage(p) == ErrMessageNotFlushed, "a new record could be started while one is pending")
+			} else {
+				vReach("timeout-with-last-bytes")
+				done = true
+			}
 		}
 	}
 	vAssert(done, "record not flushed after the writer stopped failing")
@@ -44,9 +50,18 @@ func VH_C16_Flush() {
 		vAssert(w.log[j] == body[j-18], "body bytes on the wire differ / out of order")
 	}
 	calls := w.calls
-	n, err := ini.Flush(w)
-	vAssert(n == 0 && err == nil && w.calls == calls, "final Flush is not a no-op")
+	var n int
+	var err error
+	// the next record starts from a clean slate, whatever happened to this one
+	next := vBool("next_record_first")
+	if !next {
+		n, err = ini.Flush(w)
+		vAssert(n == 0 && err == nil && w.calls == calls, "final Flush is not a no-op")
+	}
 	vAssert(ini.WriteMessage(p) == nil, "cannot start a new record after a complete flush")
+	n, err = ini.Flush(w)
+	vAssert(err == nil && n == l, "Flush of the following record does not report exactly its plaintext length")
+	vAssert(len(w.log) == 2*(18+l+16), "the following record is not on the wire once")
 }
 
 // VH_C16_HandshakeShortReads: the underlying stream fragments the handshake
